@@ -88,7 +88,9 @@ def gen_values(r, kind, n):
         elif kind == "uuid":
             out.append(["uuid", r.choice([0, 2**128 - 1, r.getrandbits(128)])])
         elif kind == "path":
-            out.append(["path", r.choice(universe.PATHS + ["/", "a b/c", "é/ü", "..", "a/../b", ".hidden", "/abs/file.tar.gz"])])
+            out.append(["path", r.choice(universe.PATHS + ["/", "a b/c", "é/ü", "..", "a/../b", ".hidden", "/abs/file.tar.gz",
+                                                          # names with edge whitespace: the text IS the value, nothing may be trimmed
+                                                          "/srv/data/backup ", " leading/file", "dir/name\n", "\tx", " ", "a /b "])])
         elif kind == "date":
             out.append(["date", r.choice([1, MAX_ORD, 719163, 719162, 719164, r.randint(1, MAX_ORD), r.randint(1, MAX_ORD)])])
         elif kind == "datetime":
